@@ -27,6 +27,8 @@ def run_demo(demo, include_dir, chai_bin, workdir, tag, tsan):
         return rc, out[-600:]
     exe = os.path.join(workdir, "demo_" + tag)
     cxx = "clang++ -fsanitize=thread -g" if tsan else "g++"
+    if "verif_engine" in open(demo, errors="replace").read() or "CHAISCRIPT_VERIF" in open(demo, errors="replace").read():
+        cxx += " -DCHAISCRIPT_VERIF"       # the demonstration looks at the stacks through the instrumentation hook
     rc, out = sh("%s -std=c++17 -O1 -I%s %s -o %s -lpthread -ldl" % (cxx, include_dir, demo, exe), timeout=1200)
     if rc != 0:
         return -1000, "demo does not compile: " + out[-400:]
@@ -61,6 +63,8 @@ def main():
                     except ValueError:
                         pass
             prev = results.get(key) or done_elsewhere.get(key)
+            if key in os.environ.get("CONFIRM_FORCE", "").split():
+                prev = None
             if prev and prev.get("tests") and prev.get("patch_sha") in (None, _sha(patch)):
                 continue        # confirmed before (against an earlier /repo HEAD is fine as long as the patch file is the same)
             res = {"head": head, "patch_sha": _sha(patch)}
